@@ -951,7 +951,7 @@ def judge_query(c, model_res, impl_res, loaded):
         return 'problem', ("load-failed", "consulting the program gave: %s" % loaded)
     ii = impl_items2(impl_res)
     if ii is None:
-        if (impl_res or "").startswith("panic(attempt to subtract") and IMPROPER.search(model_res or ""):
+        if (impl_res or "").startswith("panic(") and IMPROPER.search(model_res or ""):
             # the harness cannot print a partial list whose tail is an atom or a number (canon.rs)
             return 'skip-domain', None
         return 'problem', ("uninterpretable", "implementation result: %s" % impl_res)
@@ -1282,7 +1282,7 @@ def run(ctx):
                 skipped[st] += 1
     # 4. classify the failing cases; shrink a few unexplained ones
     findings = []
-    cls = classify(failing[:40]) if failing else {}      # bounded: a badly broken tree fails everywhere
+    cls = classify(failing[:400]) if failing else {}     # bounded: a badly broken tree fails everywhere
     shrunk = 0
     for i, (c, k, problem, mres) in enumerate(failing):
         qid = c["qids"][k]
